@@ -57,6 +57,9 @@ CHECKS["C02"] = ("property-based testing (proptest) + exhaustive rooted-tree enu
 CHECKS["C07"] = ("property-based testing (proptest) against exact solutions: convergence slope of the step interpolant's max-over-theta error; interior samples of full runs vs neighbouring step ends",
          "Single steps from exact data with the interpolant probed on a theta grid under five refinements give the interpolation order; full runs of all six methods on general closed-form problems compare Solution::sol at generated interior positions of every step with the exact solution relative to the step-end errors.",
          "Slope thresholds calibrated on the repaired tree; steps with h*rate > 1 skipped in the full-run clause.", "DESIGN.md §4 C07")
+CHECKS["C14"] = ("property-based testing (proptest) against closed-form stiff problems; differential runs at kappa and kappa=1e2; Radau-vs-BDF agreement; linear invariants",
+         "Stiff linear problems with exact solutions (triangular coupling up to kappa = 1e10, mixed basis up to 1e6) with O(1) initial transients, kinetics chains, Robertson and Van der Pol: Success, accuracy against the exact solution, step/evaluation counts compared with the same problem at kappa = 1e2, invariants, with analytic and finite-difference Jacobians.",
+         "Mixed-basis family restricted to kappa <= 1e6, rtol >= 1e-6 (conditioning of the right-hand side itself); invariant limit includes the right-hand side's own rounding.", "DESIGN.md §4 C14")
 PENDING = {}
 
 def main():
